@@ -103,8 +103,8 @@ def reshape(req):
     try:
         allocation_objects = allocation.create_allocation_list(
             context, allocations, consumers)
-    except webob.exc.HTTPBadRequest:
-        # Do not leave auto-created consumers behind a rejected request.
+    except Exception:
+        # Do not leave auto-created consumers behind a failed request.
         with excutils.save_and_reraise_exception():
             allocation.delete_consumers(new_consumers_created)
 
